@@ -205,6 +205,20 @@ def judge(case, rc, stdout, log):
     else:
         if rc == 0 or valid_line:
             out.append((kind + "-accepted", "%s graph %s listing %s: exit %s, valid-line %s" % (kind, genv, listing, rc, valid_line)))
+        # a refused start-up may or may not take the loaded modules down again; if it does, the promises about destructors hold there
+        # too: at most once per module, only for a module that was constructed, a dependent before what it depends on
+        dt = [name for what, name in events if what == "dtor"]
+        built = [name for what, name in events if what == "ctor-begin"]
+        for nm in sorted(set(dt)):
+            if dt.count(nm) > 1:
+                out.append(("refused-dtor-twice", "%s graph %s listing %s (start-up refused): the destructor of %s ran %d times: %s" % (kind, genv, listing, nm, dt.count(nm), dt)))
+            elif nm not in built:
+                out.append(("refused-dtor-unbuilt", "%s graph %s listing %s (start-up refused): the destructor of %s ran although it was never constructed" % (kind, genv, listing, nm)))
+        if not out and kind == "missing":
+            for a, b in edges:
+                A, B = NAMES[a], NAMES[b]
+                if A in dt and B in dt and not dt.index(A) < dt.index(B):
+                    out.append(("refused-order-dtor", "%s graph %s listing %s (start-up refused): destructor of dependency %s ran before that of %s: %s" % (kind, genv, listing, B, A, dt)))
     return out
 
 
